@@ -539,10 +539,10 @@ func (w *World) runQuery(q Q) {
 			break
 		}
 		// token progress: each page returns an event or moves the token forward
-		if len(pg.Ems) == 0 && !tokLess(tok, fromB, pg.Tok) {
+		if (len(pg.Ems) == 0 || q.Tok == "") && !tokLess(tok, fromB, pg.Tok) {
 			fail = "no-progress"
 			w.Res.Violate(lib.Violation{Sig: "paging-makes-no-progress",
-				What:   fmt.Sprintf("page with token %q returned no event and token %q", tok, pg.Tok),
+				What:   fmt.Sprintf("page with token %q (range from %d) returned %d events and token %q, which is not ahead of it", tok, fromB, len(pg.Ems), pg.Tok),
 				Replay: rep()})
 			break
 		}
